@@ -14,7 +14,15 @@ OK_PRESERVING = ('std::ops::Try::branch', 'std::result::Result::<T, E>::map_err'
 
 
 def _ok_preserving(d):
-    return d in OK_PRESERVING or d.endswith('as std::ops::Try>::branch') or any(d.endswith('>::' + n) or d.endswith('::' + n) for n in ('map_err', 'or_else')) and 'Result' in d
+    if d in OK_PRESERVING or d.endswith('as std::ops::Try>::branch'):
+        return True
+    last = d.rsplit('::', 1)[-1].split('<')[0]
+    # the good payload passes through unchanged: Result::{map_err, or_else, ok}, Option::{ok_or, ok_or_else, or, or_else}
+    if 'Result' in d and last in ('map_err', 'or_else', 'ok'):
+        return True
+    if 'Option' in d and last in ('ok_or', 'ok_or_else', 'or', 'or_else'):
+        return True
+    return False
 
 
 def _const_tuples_returned(body):
